@@ -197,20 +197,26 @@ func (w *webSocketClient) Close() error {
 	if w.conn == nil {
 		return nil
 	}
-	err := w.conn.WriteMessage(closeMessage, formatCloseMessage(closeNormalClosure, ""))
+	// End the subscriptions first: no frame may follow the close frame.
+	err := w.UnsubscribeAll()
 	if err != nil {
-		return fmt.Errorf("failed to send closure message: %w", err)
+		err = fmt.Errorf("failed to unsubscribe: %w", err)
 	}
-	err = w.UnsubscribeAll()
-	if err != nil {
-		return fmt.Errorf("failed to unsubscribe: %w", err)
+	closeErr := w.conn.WriteMessage(closeMessage, formatCloseMessage(closeNormalClosure, ""))
+	if closeErr != nil && err == nil {
+		err = fmt.Errorf("failed to send closure message: %w", closeErr)
 	}
+	// Whatever failed above, release the connection and the error channel.
 	verifYield("close.beforeLock")
 	w.Lock()
 	defer w.Unlock()
 	w.isClosing = true
 	close(w.errChan)
-	return w.conn.Close()
+	connErr := w.conn.Close()
+	if err == nil {
+		err = connErr
+	}
+	return err
 }
 
 func (w *webSocketClient) Subscribe(req *Request, interfaceChan interface{}, forwardDataFunc ForwardDataFunction) (string, error) {
@@ -255,14 +261,20 @@ func (w *webSocketClient) Unsubscribe(subscriptionID string) error {
 }
 
 func (w *webSocketClient) UnsubscribeAll() error {
+	var firstErr error
 	subscriptionIDs := w.subscriptions.GetAllIDs()
 	for _, subscriptionID := range subscriptionIDs {
 		err := w.Unsubscribe(subscriptionID)
 		if err != nil {
-			return err
+			// The complete frame could not be sent; still end the
+			// subscription locally so that its channel gets closed.
+			_ = w.subscriptions.Unsubscribe(subscriptionID)
+			if firstErr == nil {
+				firstErr = err
+			}
 		}
 	}
-	return nil
+	return firstErr
 }
 
 // formatCloseMessage formats closeCode and text as a WebSocket close message.
